@@ -2,11 +2,11 @@
 # usage: run_seed.sh <seed dir name under /verif/seeded> <check id>...   applies the patch to /repo, runs the checks, reverts.
 S=/verif/seeded/$1; shift
 cd /repo && git status --short | grep -q . && { echo "/repo is dirty"; exit 2; }
-git apply --3way $S/patch.diff 2>/dev/null || git apply $S/patch.diff || { echo "PATCH-DOES-NOT-APPLY"; git checkout -q -- .; exit 3; }
+git apply --3way $S/patch.diff 2>/dev/null || git apply $S/patch.diff || { echo "PATCH-DOES-NOT-APPLY"; git checkout -q HEAD -- . ; git reset -q; exit 3; }
 git reset -q
 cd /verif
 for c in "$@"; do
   ./check $c --tier ${TIER:-quick} > /tmp/seedrun-$c.log 2>&1; echo "check $c exit=$? $(grep -c '^VIOLATION' /tmp/seedrun-$c.log) violation lines; $(tail -1 /tmp/seedrun-$c.log | cut -c1-160)"
   grep -A1 '^VIOLATION' /tmp/seedrun-$c.log | head -6 | cut -c1-300
 done
-cd /repo && git checkout -q -- . && git status --short | head -3
+cd /repo && git checkout -q HEAD -- . ; git reset -q && git status --short | head -3
